@@ -427,7 +427,7 @@ def gen_events(tape, n_cons, n_events, *, strictly_increasing=None, out_of_range
                 if out_of_range and tape.chance(1, 15):
                     events.append(["PULL", ci, pubs[0] - tape.choice([1, 2])])
                     continue
-            mode = tape.weighted([("step", 6), ("same", 2), ("newest", 3), ("mid", 3), ("pub", 3), ("future", 1)])
+            mode = tape.weighted([("step", 6), ("same", 2), ("newest", 3), ("mid", 3), ("pub", 3), ("future", 1), ("near", 1)])
             hi = pubs[-1]
             if mode == "same":
                 t = lo
@@ -441,6 +441,12 @@ def gen_events(tape, n_cons, n_events, *, strictly_increasing=None, out_of_range
                 t = tape.choice(cand) if cand else lo
                 if not halves and Fraction(t).denominator != 1:
                     t = lo
+            elif mode == "near":
+                # one second before / after a publication (a relative position within 1e-5 of an interval end where
+                # the gap is longer than a day)
+                cand = [q for p in pubs for q in (Fraction(p) - Fraction(1, 3600), Fraction(p) + Fraction(1, 3600))
+                        if q >= lo and pubs[0] <= q <= pubs[-1]]
+                t = tape.choice(cand) if cand and halves else lo
             elif mode == "future":
                 if not (out_of_range and tape.chance(*future_chance)):
                     t = lo
